@@ -98,8 +98,8 @@ Lemma sforeach_S : forall f idx ident it off body m,
   match foreach_next o it off with
   | Err x => XErr x m
   | Ok (Some (x, k)) =>
-      let e1 := env_declare (menv m) ident x in
-      let e2 := match idx with [] => e1 | _ => env_declare e1 idx k end in
+      let e1 := env_declare (menv m) (trim_dollar ident) x in
+      let e2 := match idx with [] => e1 | _ => env_declare e1 (trim_dollar idx) k end in
       then_ (sblock f body (mkM (VIter it (off + 1) :: stk m) e2 (trace m) (polls m))) (fun m1 =>
         match drop_residue (menv m1) (stk m1) with
         | VIter it' off' :: s' => sforeach f idx ident it' off' body (set_stk m1 s')
@@ -309,7 +309,7 @@ Proof.
             | EIdent name =>
                 pop2s m2 (fun b a m3 =>
                   match spec_binop o bop a b with
-                  | Ok v => XNormal (set_menv m3 (env_set (menv m3) name v))
+                  | Ok v => XNormal (set_menv m3 (env_set (menv m3) (trim_dollar name) v))
                   | Err x => XErr x m3
                   end)
             | _ => XErr ENeedOracle m2
@@ -355,9 +355,9 @@ Proof.
     apply call_body_mono; [intros; apply Hxs; assumption|intros; apply Hb; assumption|exact H].
   - (* EAssign *)
     change (then_ (sx (S f) v m) (fun m1 => pop1s m1 (fun x m2 =>
-              XNormal (set_menv m2 (env_set (menv m2) n (match x with VIter y _ => y | _ => x end))))) =
+              XNormal (set_menv m2 (env_set (menv m2) (trim_dollar n) (match x with VIter y _ => y | _ => x end))))) =
             then_ (sx f v m) (fun m1 => pop1s m1 (fun x m2 =>
-              XNormal (set_menv m2 (env_set (menv m2) n (match x with VIter y _ => y | _ => x end)))))).
+              XNormal (set_menv m2 (env_set (menv m2) (trim_dollar n) (match x with VIter y _ => y | _ => x end)))))).
     apply then_mono; [apply Hx|reflexivity|exact H].
   - (* EIf *)
     rewrite sx_if_S in H; rewrite !sx_if_S. apply then_mono; [apply Hx| |exact H].
@@ -607,7 +607,7 @@ Proof.
     + apply res_ok_pop2s. intros a b s. rewrite <- K2. apply (keeps_pushr (set_stk m2 s)).
   - (* EPostfix *) cbn [ExecFun.sx]. destruct (lookup o obj (menv m) n) as [v|x]; [|exact I].
     destruct (match v with VInt z => _ | VFloat x => _ | _ => None end) as [v'|]; [|exact I].
-    cbv zeta. destruct (stk (set_menv m (env_set (menv m) n v'))); [exact I|].
+    cbv zeta. destruct (stk (set_menv m (env_set (menv m) (trim_dollar n) v'))); [exact I|].
     unfold keeps, res_ok, kinds in *; cbn [menv set_menv set_stk] in *; rewrite kinds_env_set. reflexivity.
   - (* ETernary *) rewrite sx_ternary_S. apply res_ok_then; [apply Hx|]. intros m1 K1.
     apply res_ok_pop1s. intros v s. rewrite <- K1. destruct (truthy v); apply (Hx _ (set_stk m1 s)).
@@ -805,8 +805,8 @@ Qed.
 
 (* the variables of one iteration, declared in the loop's scope *)
 Definition bind_entry (idx ident : str) (e : env) (k x : value) : env :=
-  let e1 := env_declare e ident x in
-  match idx with [] => e1 | _ => env_declare e1 idx k end.
+  let e1 := env_declare e (trim_dollar ident) x in
+  match idx with [] => e1 | _ => env_declare e1 (trim_dollar idx) k end.
 
 (* the state in which the body is entered for entry number `off`, (k, x), of the container c:
    the iterator on top of the loop's stack, the variables bound *)
@@ -1121,8 +1121,8 @@ Proof. intros e n v H. unfold env_declare. destruct (scopes e) as [|[fr s] ss]; 
 Theorem body_sees_entry : forall idx ident c off k x m,
   scopes (menv m) <> [] ->
   let mb := body_entry idx ident c off k x m in
-  (idx = [] \/ str_eqb idx ident = false -> env_get (menv mb) ident = Some x) /\
-  (idx <> [] -> env_get (menv mb) idx = Some k).
+  (idx = [] \/ str_eqb (trim_dollar idx) (trim_dollar ident) = false -> env_get (menv mb) (trim_dollar ident) = Some x) /\
+  (idx <> [] -> env_get (menv mb) (trim_dollar idx) = Some k).
 Proof.
   intros idx ident c off k x m Hs. cbn [body_entry menv]. unfold bind_entry. split.
   - intros [->|Hne]; [apply declare_get_same; exact Hs|].
